@@ -24,6 +24,12 @@ Decides from the syntax tree / CFG of hailtop/utils/rate_limiter.py (nothing is 
                 before anything is admitted
   R5 parameters `_count` / `_window_seconds` come from RateLimit.count / .window_seconds and are never reassigned
 Does not decide: clock behaviour (monotonicity of time.time), fairness among waiters.
+
+Spelling independence: the class is first brought into one spelling by engines/c2440norm.py (helpers inlined - also when called in an `if` test
+or inside the sleep amount -, pure locals moved to their uses, aliases of the deque removed, guard-clause loops folded into a loop condition,
+flag idioms threaded, `del q[0]` read as popleft); the private field names are taken from what __init__ binds them to.  A violation is reported
+only on positive evidence: a recognised construct that breaks the obligation.  A guard behind a local that could not be resolved, a helper
+that could not be inlined, a CFG path through a flag variable (feasibility unknown) make the rule DECLINE (exit 2), not alarm.
 """
 from __future__ import annotations
 
@@ -33,7 +39,7 @@ from typing import Dict, List, Optional, Set, Tuple
 
 from engines import asyncfacts as af
 from engines import c2426facts as cf
-from engines import inline
+from engines import c2440norm as nm
 from engines import pyfacts as pf
 from engines.common import AnalysisError, Ctx
 
@@ -72,30 +78,97 @@ WANT = {'head': Fraction(1), 'now': Fraction(-1), 'W': Fraction(1)}
 # --------------------------------------------------------------------------------------
 
 
-def _absorbed(cls0: ast.ClassDef, il) -> Set[str]:
-    """Helpers whose every call site was expanded into __aenter__ (directly or through another such helper): they have no behaviour of
-    their own beyond what the inlined __aenter__ shows."""
-    inl = {n for n, _ in il.inlined} - {n for n, _, _ in il.skipped}
-    refs: Dict[str, Set[str]] = {}
-    for f in cls0.body:
-        if isinstance(f, (ast.FunctionDef, ast.AsyncFunctionDef)):
-            for x in ast.walk(f):
-                if isinstance(x, ast.Attribute) and isinstance(x.value, ast.Name) and x.value.id == 'self' and x.attr in inl:
-                    refs.setdefault(x.attr, set()).add(f.name)
-    out: Set[str] = set()
-    changed = True
-    while changed:
-        changed = False
-        for h in inl - out:
-            if refs.get(h) and all(r == ENTER or r in out for r in refs[h]):
-                out.add(h)
-                changed = True
+def _mentions_self(e: ast.AST) -> bool:
+    return any(isinstance(x, ast.Name) and x.id == 'self' for x in ast.walk(e))
+
+
+def _opaque(fn: pf.FuncDef, test: ast.AST, seen: Tuple[str, ...] = ()) -> Optional[str]:
+    """Why the truth of `test` may depend on the limiter's state in a way the test itself does not show: it reads a local whose definition
+    (followed through locals, flow-insensitively) reads the object's state or is not a plain expression (the normaliser could not move it to the
+    test), it awaits, or it calls a method of the object / passes the object's state to a function that is not a pure builtin.  None when the
+    test is transparent (clock locals, parameters and constants are)."""
+    asg = pf.assignments(fn)
+    for x in ast.walk(test):
+        if isinstance(x, ast.Name) and isinstance(x.ctx, ast.Load) and x.id != 'self' and x.id not in seen:
+            for d in asg.get(x.id, []):
+                if isinstance(d, (ast.Constant, ast.arg)) or _clock_call(d) is not None:
+                    continue
+                if not isinstance(d, ast.expr) or isinstance(d, (ast.Await, ast.Yield, ast.YieldFrom)):
+                    return f'local `{x.id}` (bound by `{pf.nsrc(d)[:60]}`)'
+                if _mentions_self(d) or _opaque(fn, d, seen + (x.id,)) is not None:
+                    return f'local `{x.id}` (= `{pf.nsrc(d)[:60]}`)'
+        if isinstance(x, (ast.Await, ast.NamedExpr, ast.Lambda)):
+            return f'`{pf.nsrc(x)[:60]}`'
+        if isinstance(x, ast.Call) and pf.dotted(x.func) not in nm.PURE_FUNCS and _mentions_self(x):
+            return f'call `{pf.nsrc(x)[:60]}`'
+    return None
+
+
+def _flags(fn: pf.FuncDef) -> List[str]:
+    """Tests of fn that read a local bound at two or more places which is not a clock local (a flag / state variable): the branches taken at
+    such tests are correlated with where the local was bound, so a CFG path through them need not be executable."""
+    asg = pf.assignments(fn)
+    cn = _clock_names(fn)
+    out: List[str] = []
+    for n in pf.walk_shallow(fn):
+        if isinstance(n, (ast.If, ast.While, ast.IfExp)):
+            for x in ast.walk(n.test):
+                if isinstance(x, ast.Name) and isinstance(x.ctx, ast.Load) and x.id not in cn and len(asg.get(x.id, [])) >= 2:
+                    out.append(f'`{pf.nsrc(n.test)[:60]}` (local `{x.id}` is bound at {len(asg[x.id])} places)')
+                    break
     return out
+
+
+def _pcheck(ctx: Ctx, fn: pf.FuncDef, cond: bool, rule: str, cons: str, msg: str, file: str = '', line: int = 0, detail=None) -> bool:
+    """ctx.check for an obligation whose violation is witnessed by the EXISTENCE OF A CFG PATH: with flag variables in the function the path may
+    not be executable (the normaliser removes the common flag idioms; what is left is not decided) - decline instead of alarming."""
+    if not cond:
+        fl = _flags(fn)
+        if fl:
+            raise AnalysisError(f'{cons}: the CFG has a violating path, but {fn.name} branches on {fl[0]}: whether that path can be executed is not decided')
+    return ctx.check(cond, rule, cons, msg, file, line, detail=detail)
+
+
+def _uninlined(cls: ast.ClassDef, fn: pf.FuncDef) -> List[str]:
+    """Calls of methods of the same class that are still in fn after inlining (their effect on the deque / their suspension points are not
+    visible in fn's CFG)."""
+    names = {f.name for f in cls.body if isinstance(f, (ast.FunctionDef, ast.AsyncFunctionDef))}
+    recv = fn.args.args[0].arg if fn.args.args else 'self'
+    return sorted({pf.nsrc(c)[:60] for c in pf.walk_shallow(fn) if isinstance(c, ast.Call) and isinstance(c.func, ast.Attribute)
+                   and isinstance(c.func.value, ast.Name) and c.func.value.id == recv and c.func.attr in names})
+
+
+def _opaque_dominating_test(fn: pf.FuncDef, cfg: pf.CFG, A: pf.Node) -> Optional[str]:
+    """A test every path to A goes through (by one fixed edge) whose meaning is not visible in the test itself."""
+    for t in cfg.nodes:
+        if t.kind != 'test' or t is A:
+            continue
+        for label in ('T', 'F'):
+            if any(lab == label for _, lab in t.succ) and af.every_path_uses_edge(cfg, A, t, label):
+                why = _opaque(fn, t.ast)
+                if why is not None:
+                    return f'`{pf.nsrc(t.ast)}` reads {why}'
+    return None
+
+
+_IMP: Dict[str, str] = {}
+
+
+def _dot(e: ast.AST) -> Optional[str]:
+    """pf.dotted with the head resolved through the module's imports (`from time import time` / `import time as t` / `from asyncio import sleep`)."""
+    d = pf.dotted(e)
+    if d is None:
+        return None
+    head, _, rest = d.partition('.')
+    o = _IMP.get(head)
+    if o is not None and not o.startswith('.'):
+        return o + ('.' + rest if rest else '')
+    return d
 
 
 def _clock_call(e: ast.AST) -> Optional[str]:
     if isinstance(e, ast.Call) and not e.args and not e.keywords:
-        d = pf.dotted(e.func)
+        d = _dot(e.func)
         if d in CLOCKS:
             return d
     return None
@@ -196,7 +269,7 @@ class Rec:
         self.inline: Optional[str] = None
 
 
-def _recordings(ctx: Ctx, m: pf.Module, fn: pf.FuncDef, q: str) -> List[Rec]:
+def _recordings(ctx: Ctx, m: pf.Module, cls: ast.ClassDef, fn: pf.FuncDef, q: str) -> List[Rec]:
     """R1/R2 for every append in one function."""
     cfg = pf.cfg(fn)
     apps = af.stmt_nodes(cfg, lambda n: af.node_is_call(n, f'{ITEMS}.append') is not None or af.node_is_call(n, f'{ITEMS}.appendleft') is not None)
@@ -269,7 +342,7 @@ def _recordings(ctx: Ctx, m: pf.Module, fn: pf.FuncDef, q: str) -> List[Rec]:
                 dom = cfg.dominated_by(A, lambda n: any(n is x for x in Ns))
                 stale = [x for x in cfg.nodes if pf.node_has_await(x) and x is not A
                          and cfg.path_avoiding(x, lambda n: n is A, lambda n: any(n is y for y in Ns)) is not None] if dom else []
-                ctx.check(dom and not stale, 'R2', cons + '::fresh',
+                _pcheck(ctx, fn, dom and not stale, 'R2', cons + '::fresh',
                           (f'`{stale[0].text()}` suspends between the clock read and the append: the entry is recorded with a time older than its admission, leaves the '
                            f'window early, and more than {COUNT} entries fall into one window') if stale else f'`{arg.id}` is not read on every path to the append',
                           m.path, A.lineno)
@@ -278,7 +351,7 @@ def _recordings(ctx: Ctx, m: pf.Module, fn: pf.FuncDef, q: str) -> List[Rec]:
                 r.inline = pf.nsrc(arg)
         # the caller is let in at the recorded time: nothing suspends between recording and returning
         late = [cfg.nodes[i] for i in sorted(cfg.reachable_from(A)) if cfg.nodes[i] is not A and pf.node_has_await(cfg.nodes[i])]
-        ctx.check(not late, 'R2', cons + '::admitted when recorded',
+        _pcheck(ctx, fn, not late, 'R2', cons + '::admitted when recorded',
                   f'`{late[0].text() if late else ""}` suspends after the entry was recorded and before __aenter__ returns: the entry is really admitted later than its '
                   f'recorded time, so it leaves the window early and the next entry is let in less than one window after it (more than {COUNT} per window)',
                   m.path, A.lineno)
@@ -286,6 +359,7 @@ def _recordings(ctx: Ctx, m: pf.Module, fn: pf.FuncDef, q: str) -> List[Rec]:
         # ---- R1: the admission guard ------------------------------------------------------
         ev = af.TestEval(f'len({ITEMS})', COUNT, [])
         problems: List[str] = []
+        pathy: List[str] = []
         undecided: List[str] = []
         for t in cfg.nodes:
             if t.kind != 'test' or not af.mentions(t.ast, COUNT):
@@ -294,6 +368,10 @@ def _recordings(ctx: Ctx, m: pf.Module, fn: pf.FuncDef, q: str) -> List[Rec]:
                 if not any(lab == label for _, lab in t.succ):
                     continue
                 if not af.every_path_uses_edge(cfg, A, t, label) or not af.direct(cfg, t, A, label):
+                    continue
+                why = _opaque(fn, t.ast)
+                if why is not None:
+                    undecided.append(f'`{pf.nsrc(t.ast)}` reads {why}, whose relation to len({ITEMS}) is not visible in the test')
                     continue
                 try:
                     rows = ev.rows(t.ast)
@@ -312,11 +390,11 @@ def _recordings(ctx: Ctx, m: pf.Module, fn: pf.FuncDef, q: str) -> List[Rec]:
                     continue
                 aw = [x for x in af.between(cfg, t, A, label) if pf.node_has_await(x)]
                 if aw:
-                    problems.append(f'`{aw[0].text()}` suspends between the admission test and the append: concurrent entries all pass the test first')
+                    pathy.append(f'`{aw[0].text()}` suspends between the admission test and the append: concurrent entries all pass the test first')
                     continue
                 grow = [x for x in af.between(cfg, t, A, label) if af.node_is_call(x, f'{ITEMS}.append') is not None]
                 if grow:
-                    problems.append(f'`{grow[0].text()}` already grows the deque between the admission test and `{pf.nsrc(A.ast)}`')
+                    pathy.append(f'`{grow[0].text()}` already grows the deque between the admission test and `{pf.nsrc(A.ast)}`')
                     continue
                 r.guard = (t, label)
         consg = f'{F}::{q}::admission guard' + (f' of `{pf.nsrc(A.ast)}`' if many else '')
@@ -324,21 +402,59 @@ def _recordings(ctx: Ctx, m: pf.Module, fn: pf.FuncDef, q: str) -> List[Rec]:
             ctx.ok('R1', consg, {'test': pf.nsrc(r.guard[0].ast), 'edge': r.guard[1]})
         elif problems:
             ctx.bad('R1', consg, problems[0], m.path, A.lineno)
+        elif pathy:
+            _pcheck(ctx, fn, False, 'R1', consg, pathy[0], m.path, A.lineno)
         elif undecided:
             raise AnalysisError(f'{consg}: guard not recognised: {undecided[0]}')
         else:
+            # positive evidence only: every test on the way to the append is transparent and none of them relates len(items) to count
+            od = _opaque_dominating_test(fn, cfg, A)
+            ctx.need(od is None, f'{consg}: the append is guarded by {od}: guard not recognised')
+            un = _uninlined(cls, fn)
+            ctx.need(not un, f'{consg}: {fn.name} still calls {un[0] if un else ""} (helper not inlined): guard not recognised')
             ctx.bad('R1', consg, f'`{pf.nsrc(A.ast)}` is not dominated by a test of len({ITEMS}) against {COUNT}: entries are recorded without counting the window '
                     f'(more than {COUNT} admissions per window; or, for a timestamp that is not an admission, later entries refused although fewer than {COUNT} were admitted)',
                     m.path, A.lineno)
     # one call records at most one entry
     if apps:
         twice = [(a, b) for a in apps for b in apps if af.direct(cfg, a, b)]
-        ctx.check(not twice, 'R1', f'{F}::{q}::single admission',
+        _pcheck(ctx, fn, not twice, 'R1', f'{F}::{q}::single admission',
                   f'one call of {fn.name} can record more than one entry (`{twice[0][0].text()}` then `{twice[0][1].text()}`)' if twice else '', m.path, apps[0].lineno)
     return recs
 
 
 # --------------------------------------------------------------------------------------
+
+
+def _field_names(m0: pf.Module) -> None:
+    """The private fields are what __init__ makes them, not what they are called: the deque is the attribute bound to `deque()`, the count /
+    window are the attributes bound to `<rate limit>.count` / `.window_seconds`.  (Unresolved: the historical names are kept and the rules
+    decline on their own when those are absent.)"""
+    global ITEMS, COUNT, WINDOW
+    ITEMS, COUNT, WINDOW = 'self._items', 'self._count', 'self._window_seconds'
+    cls0 = m0.cls(CLS)
+    init = next((f for f in cls0.body if isinstance(f, ast.FunctionDef) and f.name == '__init__'), None)
+    if init is None or len(init.args.args) != 2:
+        return
+    me, rl = init.args.args[0].arg, init.args.args[1].arg
+    found: Dict[str, List[str]] = {'items': [], 'count': [], 'window': []}
+    for st in init.body:
+        tgt = st.targets[0] if isinstance(st, ast.Assign) and len(st.targets) == 1 else st.target if isinstance(st, ast.AnnAssign) and st.value is not None else None
+        if not (isinstance(tgt, ast.Attribute) and isinstance(tgt.value, ast.Name) and tgt.value.id == me):
+            continue
+        v = pf.resolve_expr(init, st.value)  # type: ignore[union-attr]
+        if isinstance(v, ast.Call) and (_dot(v.func) or '').split('.')[-1] == 'deque':
+            found['items'].append(tgt.attr)
+        elif isinstance(v, ast.Attribute) and pf.nsrc(pf.resolve_expr(init, v.value)) == rl and v.attr == 'count':
+            found['count'].append(tgt.attr)
+        elif isinstance(v, ast.Attribute) and pf.nsrc(pf.resolve_expr(init, v.value)) == rl and v.attr == 'window_seconds':
+            found['window'].append(tgt.attr)
+    if len(found['items']) == 1:
+        ITEMS = f'self.{found["items"][0]}'
+    if len(found['count']) == 1:
+        COUNT = f'self.{found["count"][0]}'
+    if len(found['window']) == 1:
+        WINDOW = f'self.{found["window"][0]}'
 
 
 def run(ctx: Ctx) -> None:
@@ -354,11 +470,15 @@ def run(ctx: Ctx) -> None:
     ctx.assume('asyncio runs one coroutine at a time and switches only at await; the clock does not go backwards')
     m0 = pf.load(F)
     ctx.unit('files')
-    cls0 = m0.cls(CLS)
-    # __aenter__ is analysed with its same-class helpers inlined (an extracted `_expire(now)` is seen through)
-    m, il = inline.inline_methods(m0, CLS, ENTER, exclude=('__init__', '__aexit__'))
+    _IMP.clear()
+    _IMP.update(m0.imports())
+    _field_names(m0)
+    # __aenter__ is analysed with its same-class helpers inlined (an extracted `_expire(now)` / `if self._try_admit(now):` /
+    # `sleep(self._wait_time(now))` is seen through) and every method in one spelling (engines/c2440norm.py: locals holding a pure
+    # sub-expression moved to their uses, guard clauses folded into the loop condition, `del q[0]` read as `q.popleft()`)
+    m, il = nm.prepare(m0, CLS, [ENTER], exclude=('__init__', '__aexit__'), deque_attrs=(ITEMS,))
     cls = m.cls(CLS)
-    absorbed = _absorbed(cls0, il)
+    absorbed = il.absorbed
     ctx.unit('helpers_inlined', len(il.inlined))
     fn = af.method(m, cls, ENTER)
     ctx.need(isinstance(fn, ast.AsyncFunctionDef), '__aenter__ is not a coroutine')
@@ -385,46 +505,92 @@ def run(ctx: Ctx) -> None:
         elif u.kind in DEQUE_BAD:
             ctx.bad('R3', cons, f'`{u.detail}` {DEQUE_BAD[u.kind]}: the window count is wrong and more than `count` entries can be admitted per window',
                     m.path, line)
+        elif u.kind in ('delitem:0', 'setitem:0'):
+            raise AnalysisError(f'{cons}: `{u.detail}` writes the oldest entry in a way that is not analysed')
         elif u.kind.startswith(('index:', 'setitem:', 'delitem:')):
             ctx.bad('R3', cons, f'`{u.detail}` does not address the oldest entry [0]', m.path, line)
         else:
             raise AnalysisError(f'{cons}: unrecognised use of the timestamp deque ({u.kind})')
 
     # ---- R1 / R2 for every recording statement of the class -----------------------------
-    recs = _recordings(ctx, m, fn, q)
+    recs = _recordings(ctx, m, cls, fn, q)
     ctx.need(len(recs) >= 1, f'{q}: no statement records the entry (`{ITEMS}.append(...)`)')
     for st in cls.body:
         if isinstance(st, (ast.FunctionDef, ast.AsyncFunctionDef)) and st is not fn and st.name not in absorbed:
-            _recordings(ctx, m, st, f'{CLS}.{st.name}')
+            _recordings(ctx, m, cls, st, f'{CLS}.{st.name}')
     apps = [r.node for r in recs]
     # every (reachable) return passes an append
     p = cfg.path_avoiding(cfg.entry, lambda n: n is cfg.exit, lambda n: any(n is a for a in apps))
-    ctx.check(p is None, 'R1', f'{F}::{q}::every return records an entry',
+    if p is not None:
+        un = _uninlined(cls, fn)
+        ctx.need(not un, f'{q}: a return is reached without an append in {ENTER} itself, which still calls {un[0] if un else ""} (helper not inlined)')
+    _pcheck(ctx, fn, p is None, 'R1', f'{F}::{q}::every return records an entry',
               'a path returns from __aenter__ without recording a timestamp: that entry is not counted against the rate'
               + (f' (via `{p[-2].text()}`)' if p and len(p) >= 2 else ''), m.path, fn.lineno)
 
     _window(ctx, m, cls, fn, cfg, q, recs, uses)
 
     # ---- R5 parameters ------------------------------------------------------------------
+    _parameters(ctx, m, cls)
+
+
+def _bound_value(ctx: Ctx, m: pf.Module, owner: ast.ClassDef, init: pf.FuncDef, attr: str, where: str) -> Optional[ast.AST]:
+    """The expression `self.<attr>` is bound to: written exactly once in the class, by a plain / annotated assignment at the top level of
+    __init__.  A write anywhere else is reported by the caller (returns None after ctx.bad); other shapes decline."""
+    par = m.parents()
+    writes = [n for n in ast.walk(owner) if isinstance(n, ast.Attribute) and isinstance(n.ctx, (ast.Store, ast.Del)) and pf.nsrc(n) == attr]
+    outside = [w for w in writes if m.enclosing_func(w) is not init]
+    if outside:
+        f = m.enclosing_func(outside[0])
+        ctx.bad('R5', where, f'{attr} is written again outside __init__ (`{pf.nsrc(par.get(outside[0]))}` in {f.name if f is not None else "the class body"}): '
+                'the limiter no longer enforces the configured rate', m.path, getattr(outside[0], 'lineno', init.lineno))
+        return None
+    ctx.need(len(writes) == 1, f'{where}: {attr} is assigned {len(writes)} times in __init__ (expected once)')
+    st = par.get(writes[0])
+    ok = (isinstance(st, ast.Assign) and len(st.targets) == 1 and st.targets[0] is writes[0]) or (isinstance(st, ast.AnnAssign) and st.target is writes[0] and st.value is not None)
+    ctx.need(ok and any(st is x for x in init.body), f'{where}: `{pf.nsrc(st)}` is not a plain assignment at the top level of __init__')
+    return pf.resolve_expr(init, st.value)  # type: ignore[union-attr]
+
+
+def _parameters(ctx: Ctx, m: pf.Module, cls: ast.ClassDef) -> None:
+    """R5.  A violation needs a value that is recognisably something else (another field, a shifted / constant value, a later write); a
+    spelling that is merely not understood declines."""
     init = af.method(m, cls, '__init__')
     params = [a.arg for a in init.args.args]
     ctx.need(len(params) == 2, f'{CLS}.__init__ parameters changed: {params}')
     rl = params[1]
-    want_src = {COUNT: f'{rl}.count', WINDOW: f'{rl}.window_seconds'}
-    for attr, src in want_src.items():
-        writes = [n for n in ast.walk(cls) if isinstance(n, ast.Attribute) and isinstance(n.ctx, (ast.Store, ast.Del)) and pf.nsrc(n) == attr]
-        par = m.parents()
-        ok = len(writes) == 1 and m.enclosing_func(writes[0]) is init and isinstance(par.get(writes[0]), ast.Assign) and pf.nsrc(par[writes[0]].value) == src
-        ctx.check(ok, 'R5', f'{F}::{CLS}::{attr}', f'{attr} is not assigned exactly once, in __init__, from `{src}` '
-                  f'(found {[pf.nsrc(par.get(w)) for w in writes]})', m.path, init.lineno)
+    ctx.need(len(pf.assignments(init).get(rl, [])) == 1, f'{CLS}.__init__: parameter `{rl}` is re-bound')
+    fields = {COUNT: 'count', WINDOW: 'window_seconds'}
+    atoms = {f'{rl}.count': 'count', f'{rl}.window_seconds': 'window_seconds'}
+    for attr, field in fields.items():
+        where = f'{F}::{CLS}::{attr}'
+        v = _bound_value(ctx, m, cls, init, attr, where)
+        if v is None:
+            continue
+        if pf.nsrc(v) == f'{rl}.{field}':
+            ctx.ok('R5', where, f'{rl}.{field}')
+            continue
+        lin = af.linear(v, atoms)
+        ctx.need(lin is not None, f'{where}: bound to `{pf.nsrc(v)}`, which is not recognised as {rl}.{field}')
+        ctx.check(lin == {field: Fraction(1)}, 'R5', where, f'{attr} is bound to `{pf.nsrc(v)}` (= {af.lin_str(lin)}), not to the configured `{rl}.{field}`',  # type: ignore[arg-type]
+                  m.path, init.lineno)
     rcls = m.cls('RateLimit')
     rinit = af.method(m, rcls, '__init__')
     rp = [a.arg for a in rinit.args.args]
     ctx.need(rp[1:] == ['count', 'window_seconds'], f'RateLimit.__init__ parameters changed: {rp}')
     for name in ('count', 'window_seconds'):
-        asg = [s for s in rinit.body if isinstance(s, ast.Assign) and len(s.targets) == 1 and pf.nsrc(s.targets[0]) == f'self.{name}']
-        ctx.check(len(asg) == 1 and pf.nsrc(asg[0].value) == name, 'R5', f'{F}::RateLimit.__init__::self.{name}',
-                  f'RateLimit.{name} is not the constructor argument `{name}`', m.path, rinit.lineno)
+        where = f'{F}::RateLimit.__init__::self.{name}'
+        ctx.need(len(pf.assignments(rinit).get(name, [])) == 1, f'{where}: parameter `{name}` is re-bound')
+        v = _bound_value(ctx, m, rcls, rinit, f'self.{name}', where)
+        if v is None:
+            continue
+        if isinstance(v, ast.Name) and v.id == name:
+            ctx.ok('R5', where, name)
+            continue
+        lin = af.linear(v, {'count': 'count', 'window_seconds': 'window_seconds'})
+        ctx.need(lin is not None, f'{where}: bound to `{pf.nsrc(v)}`, which is not recognised as the constructor argument `{name}`')
+        ctx.check(lin == {name: Fraction(1)}, 'R5', where, f'RateLimit.{name} is bound to `{pf.nsrc(v)}` (= {af.lin_str(lin)}), not to the constructor argument `{name}`',  # type: ignore[arg-type]
+                  m.path, rinit.lineno)
 
 
 def _other_clock(fn: pf.FuncDef, e: ast.AST, clock: Optional[str], now: str) -> Optional[str]:
@@ -579,6 +745,8 @@ def _window(ctx: Ctx, m: pf.Module, cls: ast.ClassDef, fn: pf.FuncDef, cfg: pf.C
     Es: List[pf.Node] = []
     if not loops:
         ctx.need(not pops, f'{q}: popleft outside a recognised eviction loop')
+        un = _uninlined(cls, fn)
+        ctx.need(not un, f'{q}: no eviction loop in {ENTER} itself, which still calls {un[0] if un else ""} (helper not inlined)')
         ctx.bad('R3', consE, 'entries are never evicted: once `count` entries were admitted nobody is admitted again / the sleep amount is computed from a '
                 'stale head', m.path, fn.lineno)
         af.blocked(ctx, 'R3', 'R3')
@@ -627,9 +795,24 @@ def _window(ctx: Ctx, m: pf.Module, cls: ast.ClassDef, fn: pf.FuncDef, cfg: pf.C
                 why = '(entries are evicted too early -> rate exceeded, or too late -> not admitted when possible)'
             ctx.check(okd and not strict, 'R3', consE + f'::condition `{pf.nsrc(cmps[0])}`',
                       f'evicts while {af.lin_str(d)} {"<" if strict else "<="} 0, the half-open window requires head - now + W <= 0 ' + why, m.path, lp.lineno)
-        body_ok = len(lp.body) == 1 and isinstance(lp.body[0], ast.Expr) and pf.call_name(lp.body[0].value) == f'{ITEMS}.popleft' and not lp.orelse
-        ctx.check(body_ok, 'R3', consE + '::body', f'the eviction loop body is `{"; ".join(pf.nsrc(s) for s in lp.body)}`, not a single `{ITEMS}.popleft()`',
-                  m.path, lp.lineno)
+        # body: ONE `popleft()` per evaluation of the condition; other statements are tolerated when they cannot matter here (no use of the
+        # deque, no suspension, no jump)
+        ctx.need(not lp.orelse, f'{q}: eviction loop with an else clause (not analysed)')
+        popst = [s_ for s_ in lp.body if isinstance(s_, ast.Expr) and pf.call_name(s_.value) == f'{ITEMS}.popleft']
+        other = [s_ for s_ in lp.body if s_ not in popst]
+        inert = all(not af.mentions(s_, ITEMS) and not pf.has_await(s_) and not any(isinstance(x, (ast.Break, ast.Continue, ast.Return, ast.Raise, ast.While, ast.For, ast.Try,
+                                                                                                  ast.With, ast.AsyncWith, ast.AsyncFor)) for x in ast.walk(s_)) for s_ in other)
+        if len(popst) == 1 and inert:
+            ctx.ok('R3', consE + '::body', 'one popleft per evaluation of the condition')
+        elif len(popst) >= 2 and inert and len(popst) + len(other) == len(lp.body):
+            ctx.bad('R3', consE + '::body', f'the eviction loop body `{"; ".join(pf.nsrc(s_) for s_ in lp.body)}` pops {len(popst)} entries per evaluation of the condition: '
+                    f'the entries behind the head are dropped without being tested against the window (still inside it: more than {COUNT} admissions per window)',
+                    m.path, lp.lineno)
+        elif not popst and not any(af.mentions(s_, ITEMS) for s_ in lp.body) and inert:
+            ctx.bad('R3', consE + '::body', f'the eviction loop body `{"; ".join(pf.nsrc(s_) for s_ in lp.body)}` never removes the head it tested: the loop does not terminate / '
+                    'nothing is evicted', m.path, lp.lineno)
+        else:
+            raise AnalysisError(f'{q}: eviction loop body `{"; ".join(pf.nsrc(s_) for s_ in lp.body)[:120]}` not recognised')
     if loops:
         # Position, stated for "the last clock read" so that it does not depend on how many reads / copies of the eviction loop there are:
         # every way of reaching the admission test - from the entry or from a suspension point - reads the clock, and every way of reaching
@@ -640,7 +823,7 @@ def _window(ctx: Ctx, m: pf.Module, cls: ast.ClassDef, fn: pf.FuncDef, cfg: pf.C
             for T, _ in guards:
                 stale_now = [s for s in [cfg.entry] + susp if cfg.path_avoiding(s, lambda n, T=T: n is T, isN) is not None]
                 unevicted = [s for s in [cfg.entry] + susp + Ns if cfg.path_avoiding(s, lambda n, T=T: n is T, isE) is not None]
-                ctx.check(not stale_now and not unevicted, 'R3', consE + '::position',
+                _pcheck(ctx, fn, not stale_now and not unevicted, 'R3', consE + '::position',
                           'the eviction loop is not run, with the current clock value, on every path between the clock read and the admission test: '
                           'entries that already left the window are still counted (late admission) or the test uses an outdated deque'
                           + (f' (after `{(stale_now + unevicted)[0].text()}`)' if (stale_now + unevicted) and (stale_now + unevicted)[0] is not cfg.entry else ''),
@@ -665,6 +848,10 @@ def _window(ctx: Ctx, m: pf.Module, cls: ast.ClassDef, fn: pf.FuncDef, cfg: pf.C
                     if after_susp is None and pf.node_has_await(x) and x is not P and af.direct(ucfg, x, P):
                         after_susp = x
         ctx.need(not tested, f'{cons}: a second eviction site guarded by a test on the head (not analysed)')
+        if ucfg is not None and ufn is not None:
+            for P in ucfg.node_of(u.node):
+                od = _opaque_dominating_test(ufn, ucfg, P)
+                ctx.need(od is None, f'{cons}: guarded by {od} (not analysed)')
         if after_susp is not None:
             example = (f'the head at the time the task resumes from `{after_susp.text()}` need not be the entry it was looking at before: two waiters parked on the same '
                        f'oldest entry both resume when it expires, the first evicts it and is admitted, the second drops the NEXT entry, which is still inside the window '
@@ -685,6 +872,8 @@ def _window(ctx: Ctx, m: pf.Module, cls: ast.ClassDef, fn: pf.FuncDef, cfg: pf.C
         else:
             blockers[S.id] = payload  # type: ignore[assignment]
     if not sleeps:
+        un = _uninlined(cls, fn)
+        ctx.need(not un, f'{q}: no sleep in {ENTER} itself, which still calls {un[0] if un else ""} (helper not inlined)')
         ctx.bad('R4', consS, 'a refused entry never sleeps until the oldest entry leaves the window: __aenter__ spins on the clock and blocks the event loop', m.path, fn.lineno)
         af.blocked(ctx, 'R4', 'R4')
     many = len(sleeps) > 1
@@ -695,14 +884,14 @@ def _window(ctx: Ctx, m: pf.Module, cls: ast.ClassDef, fn: pf.FuncDef, cfg: pf.C
         if mid:
             X = mid[0]
             how = blockers.get(X.id, 'a suspension point')
-            ctx.bad('R4', consS + '::starts at the clock read',
+            _pcheck(ctx, fn, False, 'R4', consS + '::starts at the clock read',
                     f'`{X.text()}` ({how}) can suspend between the clock read `{now} = {clock or "clock"}()` and `{S.text()}`: the amount is the time until the oldest entry '
                     f'leaves the window counted from the clock read, but the sleep only starts when that suspension ends, so the waiter wakes later than head + window by the '
                     f'time it spent suspended - not admitted as soon as possible (count=2, window=10, arrivals 0,1,2,2: the second waiter computes 8 s at t=2, is resumed at '
                     f't=10 when the first waiter\'s sleep ends and sleeps until 18, although the entry of t=1 left the window at 11)', m.path, S.lineno)
         else:
             ctx.ok('R4', consS + '::starts at the clock read', 'no suspension point between the clock read and the sleep')
-        amount = _time_norm(m, cls, fn, cfg, arg, now, Ns, S)
+        amount = _strip_nonneg(_time_norm(m, cls, fn, cfg, arg, now, Ns, S))
         oc = _other_clock(fn, pf.resolve_expr(fn, arg), clock, now) or _other_clock(fn, amount, clock, now)
         if oc is not None:
             ctx.bad('R4', consS + '::clock', f'the sleep amount `{pf.nsrc(amount)}` is computed with `{oc}` while the entries are recorded with {clock}(): '
@@ -718,14 +907,24 @@ def _window(ctx: Ctx, m: pf.Module, cls: ast.ClassDef, fn: pf.FuncDef, cfg: pf.C
             def not_refusing(a: pf.Node, b: pf.Node, lab: str) -> bool:
                 return not any(a is T and lab in ('T', 'F') and lab != gl for T, gl in guards)
             free = cfg.path_avoiding(cfg.entry, lambda n, S=S: n is S, lambda n: False, edge_ok=not_refusing)
-            ctx.check(free is None, 'R4', consS + '::only when refused', 'the sleep is also executed by entries that were not refused by the admission test',
+            _pcheck(ctx, fn, free is None, 'R4', consS + '::only when refused', 'the sleep is also executed by entries that were not refused by the admission test',
                       m.path, S.lineno)
     # after any suspension the clock is re-read before anything is admitted
     for S in susp:
         consS = f'{F}::{q}::sleep' + (f' `{pf.nsrc(S.ast)}`' if many else '') if S.id not in blockers else f'{F}::{q}::{S.text()}'
         back = af.must_pass(cfg, S, lambda n: any(n is a for a in apps) or n is cfg.exit, isN)
-        ctx.check(back is None, 'R4', consS + '::re-evaluates', 'after suspending an entry is admitted / returns without re-reading the clock and re-counting the window',
+        _pcheck(ctx, fn, back is None, 'R4', consS + '::re-evaluates', 'after suspending an entry is admitted / returns without re-reading the clock and re-counting the window',
                   m.path, S.lineno)
+
+
+def _strip_nonneg(e: ast.AST) -> ast.AST:
+    """`max(0, x)` / `max(x, 0.0)` as a sleep amount: asyncio.sleep returns at once for any amount <= 0, so the clamp changes nothing."""
+    while isinstance(e, ast.Call) and pf.dotted(e.func) == 'max' and len(e.args) == 2 and not e.keywords:
+        zs = [a for a in e.args if isinstance(a, ast.Constant) and isinstance(a.value, (int, float)) and not isinstance(a.value, bool) and a.value == 0]
+        if len(zs) != 1:
+            break
+        e = next(a for a in e.args if a is not zs[0])
+    return e
 
 
 def _after_reads_before(cfg: pf.CFG, Ns: List[pf.Node], S: pf.Node) -> List[pf.Node]:
@@ -782,8 +981,10 @@ def _suspension(ctx: Ctx, m: pf.Module, cls: ast.ClassDef, fn: pf.FuncDef, cfg: 
     a = S.ast
     if S.kind == 'stmt' and isinstance(a, ast.Expr) and isinstance(a.value, ast.Await):
         c = a.value.value
-        if isinstance(c, ast.Call) and pf.dotted(c.func) == 'asyncio.sleep' and len(c.args) == 1 and not c.keywords:
+        if isinstance(c, ast.Call) and _dot(c.func) == 'asyncio.sleep' and len(c.args) == 1 and not c.keywords:
             return 'sleep', c.args[0]
+        if isinstance(c, ast.Call) and _dot(c.func) == 'asyncio.sleep' and not c.args and len(c.keywords) == 1 and c.keywords[0].arg == 'delay':
+            return 'sleep', c.keywords[0].value
         if isinstance(c, ast.Call) and isinstance(c.func, ast.Attribute) and c.func.attr == 'acquire' and not c.args and not c.keywords \
                 and isinstance(c.func.value, ast.Attribute) and isinstance(c.func.value.value, ast.Name) and c.func.value.value.id == 'self':
             attr = c.func.value.attr
